@@ -1458,6 +1458,8 @@ class Interp:
                 if not clss:
                     out |= generic()
             return frozenset(out)
+        if name == "heapq.merge":
+            return self.new_container(fr, node, "gen", vjoin(*[self.elements(a, fr) for a in args]) if args else EMPTY)
         if short in ("chain", "from_iterable"):
             if short == "from_iterable":
                 return self.new_container(fr, node, "gen", self.elements(self.elements(a0, fr), fr))
